@@ -67,6 +67,19 @@ Theorem C15_outside_shape_unsound_refuted :
 Proof. exact valueor_lambda_refuted. Qed.
 Print Assumptions C15_outside_shape_unsound_refuted.
 
+(* outside the documented shape, also after the value_or repair: a zero-valued element that can carry a sign
+   is stripped as zero padding (class K_signed_zero); the class never meets the documented shape *)
+Theorem C15_signed_zero_unsound_refuted :
+  exists r ivs s n, K_signed_zero r = true /\ documented_shapeb r = false /\
+                    nifr_top false r = Val (Some ivs) /\ nifr_top true r = Val (Some ivs) /\
+                    matches r s /\ intval s = Some n /\ ~ In_ivs n ivs.
+Proof. exact signed_zero_refuted. Qed.
+Print Assumptions C15_signed_zero_unsound_refuted.
+
+Theorem C15_signed_zero_outside_shape : forall r, recognizedb r = true -> K_signed_zero r = false.
+Proof. exact signed_zero_outside_shape. Qed.
+Print Assumptions C15_signed_zero_outside_shape.
+
 (* ---- compress_concatenation_elements: its two asserts and the final `assert False` are unreachable ---- *)
 Theorem C15_compress_no_assert : forall l, exists r, compress l = Ok r.
 Proof. exact compress_no_assert. Qed.
